@@ -46,10 +46,33 @@ type Case struct {
 	Alias    []string `json:"alias"`    // per import: "" | name | "." | "_"
 	Calls    []Call   `json:"calls"`
 	GoStmt   bool     `json:"go_stmt"`   // the source contains a go statement
+	GoForm   int      `json:"go_form"`   // which form of go statement (see goForms) when no call uses the go mode
 	AllowGo  bool     `json:"allow_go"`  // BuildOptions.AllowGoStmt
 	Bad      string   `json:"bad"`       // "" | undeclared-global | unexported | undeclared-member
 	Globals  bool     `json:"globals"`   // template: functions are also declared as globals
 	Dead     bool     `json:"dead_code"` // an unsupplied reference sits in dead code (must still fail)
+}
+
+// goForms are go statements with every kind of callee: a function literal, a declared
+// function value, and the builtins that may be used in a go statement.
+var goForms = []string{
+	"\t{\n\t\tdone := make(chan int)\n\t\tgo func() { done <- 1 }()\n\t\tn += <-done\n\t}\n",
+	"\t{\n\t\tdone := make(chan int, 1)\n\t\tf := func(c chan int) { c <- 1 }\n\t\tgo f(done)\n\t\tn += <-done\n\t}\n",
+	"\tgo println(\"g\")\n",
+	"\tgo print(\"g\")\n",
+	"\t{\n\t\tc := make(chan int)\n\t\tgo close(c)\n\t\t<-c\n\t}\n",
+	"\t{\n\t\tm := map[string]int{\"k\": 1}\n\t\tgo delete(m, \"z\")\n\t}\n",
+	"\t{\n\t\td := make([]int, 1)\n\t\tgo copy(d, []int{})\n\t}\n",
+	"\tgo recover()\n",
+}
+
+var goFormsTemplate = []string{
+	"{% if true %}{% done := make(chan int) %}{% go func() { done <- 1 }() %}{% n += <-done %}{% end %}",
+	"{% if true %}{% done := make(chan int, 1) %}{% f := func(c chan int) { c <- 1 } %}{% go f(done) %}{% n += <-done %}{% end %}",
+	"{% go println(\"g\") %}",
+	"{% go print(\"g\") %}",
+	"{% if true %}{% c := make(chan int) %}{% go close(c) %}{% _, _ = <-c %}{% end %}",
+	"{% go recover() %}",
 }
 
 // recorder collects the host functions executed.
@@ -234,7 +257,7 @@ func programSource(c Case) string {
 		}
 	}
 	if c.GoStmt && !hasMode(c, "go") {
-		b.WriteString("\t{\n\t\tdone := make(chan int)\n\t\tgo func() { done <- 1 }()\n\t\tn += <-done\n\t}\n")
+		b.WriteString(goForms[c.GoForm%len(goForms)])
 	}
 	bad := badExpr(c)
 	if bad != "" {
@@ -323,7 +346,7 @@ func templateSource(c Case) string {
 		}
 	}
 	if c.GoStmt && !hasMode(c, "go") {
-		b.WriteString("{% if true %}{% done := make(chan int) %}{% go func() { done <- 1 }() %}{% n += <-done %}{% end %}")
+		b.WriteString(goFormsTemplate[c.GoForm%len(goFormsTemplate)])
 	}
 	if bad := badExpr(c); bad != "" {
 		if c.Dead {
@@ -514,6 +537,7 @@ func genCase(t *rapid.T) Case {
 	}
 	c.AllowGo = rapid.Bool().Draw(t, "allowgo")
 	c.GoStmt = rapid.IntRange(0, 3).Draw(t, "gostmt") == 0
+	c.GoForm = rapid.IntRange(0, 7).Draw(t, "goform")
 	// calls on the imported, supplied packages
 	var callable []string
 	for i, p := range c.Imports {
